@@ -14,7 +14,8 @@ import sys
 sys.path.insert(0, os.path.dirname(os.path.abspath(__file__)))
 import queries as Q      # noqa
 
-NAMESETS = [["r", "a", "A", "b", "c"], ["r", "a*", "a", "?", "a.b"], ["top", "x", "x", "X", "y"]]
+# None: the node has no path attribute at all (it resolves as 'None', and error messages must still be built)
+NAMESETS = [["r", "a", "A", "b", "c"], ["r", "a*", "a", "?", "a.b"], ["top", "x", "x", "X", "y"], ["r", "a", None, "b", None]]
 
 
 def mk(shape, names, sep, attr):
@@ -24,12 +25,13 @@ def mk(shape, names, sep, attr):
         separator = sep
 
         def __init__(self, nm, parent=None):
-            setattr(self, attr, nm)
+            if nm is not None:
+                setattr(self, attr, nm)
             self.label = None
             self.parent = parent
 
         def __repr__(self):
-            return "<%s>" % getattr(self, attr)
+            return "<%s>" % getattr(self, attr, None)
     nodes = []
 
     def rec(sh, parent):
